@@ -72,6 +72,16 @@ CHECKS["C18"] = dict(
          "minimal_imap on symbolic joints (generic and product-form), the code's tolerance tests forking on numpy's exact formula.",
     note="Bounds: n<=4 DAGs, <=2 (3) assertions over <=4 variables, 2x2x2 joints. Two known findings (closure contraction rule, minimal_imap) are "
          "recognised precisely and listed in known_findings.txt.", ref="5/C18")
+CHECKS["C11"] = dict(
+    text="HillClimbSearch.estimate/_legal_operations (with and without ScoreCache) run against a table-driven StructureScore whose local scores are "
+         "symbolic reals, so one run covers every data set inducing that comparison pattern; on every path z3 shows (linear arithmetic): result acyclic, "
+         "over the data's variables, contains fixed edges, avoids black-listed and non-white-listed additions, respects max_indegree, score >= start, and "
+         "- when the loop ended by the epsilon test with tabu disabled - no legal add/delete/flip improves by epsilon (symbolic epsilon). "
+         "ExhaustiveSearch.estimate/all_scores: global maximality over all DAGs. TreeSearch._create_tree_and_dag on symbolic positive weights: "
+         "spanning tree, directed away from the root, weight >= every spanning tree.",
+    note="Bounds: HillClimb n=3, max_iter<=3 (thorough n=4 max_iter<=2); Exhaustive n=2 all-symbolic, n=3 with 4 symbolic scores; Chow-Liu n<=4. "
+         "Mutual-information computation (sklearn) is outside. networkx.from_pandas_adjacency and math.isnan are stubbed for symbolic weights.",
+    ref="5/C11")
 
 NOT_APPLICABLE = {
     "C19": "statistic, dof and p-value are produced inside pandas.groupby / numpy.bincount / scipy.stats.chi2_contingency / chi2.cdf "
